@@ -42,6 +42,10 @@ def runs(rng, tier):
         out.append([rng.below(1 << 30), 300, 'handles', 12, '--pika:threads=4', '--pika:scheduler=local-priority-fifo'])
         out.append([rng.below(1 << 30), 100, 'jtswap', 8, '--pika:threads=3', '--pika:scheduler=local-priority-fifo'])
         out.append([rng.below(1 << 30), 0, 'jtswap', 8, '--pika:threads=1', '--pika:scheduler=static'])
+    # directed, one worker: an interruption already pending when join() is entered, handled by the user code, followed by a
+    # second join (monitors only, see lean/Driver/JoinDrv.lean)
+    for pol in POLICIES[:3]:
+        out.append([rng.below(1 << 30), 0, 'joinpend', 1, '--pika:threads=1', f'--pika:scheduler={pol}'])
     return out
 
 
